@@ -17,9 +17,13 @@ type relayTopo struct {
 }
 
 func (w *World) buildRelayTopo(nc, ns, hops int, relayConn func() tchannel.ConnectionOptions, relayOpts func(o *NodeOpts)) *relayTopo {
+	return w.buildRelayTopoConn(nc, ns, hops, w.connOpts, relayConn, relayOpts)
+}
+
+func (w *World) buildRelayTopoConn(nc, ns, hops int, endConn, relayConn func() tchannel.ConnectionOptions, relayOpts func(o *NodeOpts)) *relayTopo {
 	t := &relayTopo{}
 	for i := 0; i < ns; i++ {
-		n := w.addNode(NodeOpts{Name: fmt.Sprintf("s%d", i), Service: fmt.Sprintf("svc%d", i), Host: fmt.Sprintf("10.0.2.%d", i+1), Port: 5000 + i, Conn: w.connOpts()})
+		n := w.addNode(NodeOpts{Name: fmt.Sprintf("s%d", i), Service: fmt.Sprintf("svc%d", i), Host: fmt.Sprintf("10.0.2.%d", i+1), Port: 5000 + i, Conn: endConn()})
 		n.Ch.Register(&echoHandler{w: w, n: n}, "echo")
 		t.servers = append(t.servers, n)
 	}
@@ -41,7 +45,7 @@ func (w *World) buildRelayTopo(nc, ns, hops int, relayConn func() tchannel.Conne
 		t.spies = append([]*SpyRelayHost{spy}, t.spies...)
 	}
 	for i := 0; i < nc; i++ {
-		n := w.addNode(NodeOpts{Name: fmt.Sprintf("c%d", i), Service: fmt.Sprintf("client%d", i), Host: fmt.Sprintf("10.0.3.%d", i+1), Port: 0, Conn: w.connOpts()})
+		n := w.addNode(NodeOpts{Name: fmt.Sprintf("c%d", i), Service: fmt.Sprintf("client%d", i), Host: fmt.Sprintf("10.0.3.%d", i+1), Port: 0, Conn: endConn()})
 		t.clients = append(t.clients, n)
 	}
 	return t
@@ -203,7 +207,7 @@ func (w *World) quiesceRelay(t *relayTopo, maxTimeout time.Duration) {
 		l.Heal()
 	}
 	// generous: every ttl, the library's tombstone period and slack
-	sleep(maxTimeout + 30*time.Second)
+	w.settle(maxTimeout + 30*time.Second)
 	for _, spy := range t.spies {
 		spy.checkEnded()
 	}
